@@ -190,6 +190,21 @@ impl Block {
         self.name().unwrap_or(UNNAMED_BLOCK_LABEL)
     }
 
+    /// Returns the position of the `line_index`-th line of the block's content in the source: its
+    /// 1-based line number and the byte offset of the content line within that source line (the
+    /// first content line starts where the start tag's comment ends, all the others at column 1).
+    pub(crate) fn content_line_position(&self, line_index: usize) -> (usize, usize) {
+        let start = &self.content_position_range.start;
+        (
+            start.line + line_index,
+            if line_index == 0 {
+                start.character - 1
+            } else {
+                0
+            },
+        )
+    }
+
     /// Returns the block's content from the given `source`.
     pub(crate) fn content<'source>(&self, source: &'source str) -> &'source str {
         &source[self.content_bytes_range.clone()]
